@@ -164,7 +164,7 @@ package machine
 //@ sumfold psum(s []*MonetaryInt) = val(e)
 
 //@ func (a Allotment) Allocate(amount *MonetaryInt) (parts []*MonetaryInt)
-//@   property C24 C36
+//@   property C22 C24 C36
 //@   requires amount != nil && val(amount) >= 0
 //@   requires forall i int :: 0 <= i && i < len(a) ==> a[i].num >= 0 && a[i].den > 0
 //@   requires ratsum(a) == 1
